@@ -854,8 +854,18 @@ impl St {
                     let b = serde_json::from_str::<serde_json::Value>(j).ok().and_then(|v| serde_json::from_value::<MarkerTree>(v).ok());
                     if a == b { a } else { None }
                 });
-                let same = t == c && t == jback;
+                // the serde helpers for fields of type MarkerTree (marker::ser): `is_empty` says "nothing to serialise" exactly when there are
+                // no contents, and `serialize` writes the contents
+                let ser_empty = pep508_rs::marker::ser::is_empty(a);
+                let ser_text = if ser_empty { None } else {
+                    match catch_unwind(AssertUnwindSafe(|| pep508_rs::marker::ser::serialize(a, serde_json::value::Serializer))) {
+                        Ok(Ok(serde_json::Value::String(s))) => Some(s),
+                        _ => Some("<<ser::serialize failed>>".to_string()),
+                    }
+                };
+                let same = t == c && t == jback && ser_empty == t.is_none() && ser_text == t;
                 match t {
+                    None if !same => S::tag("ok", vec![S::str("<<TRUE marker>>"), S::bool(false), S::bool(true)]),
                     None => S::tag("ok", vec![S::a("none")]),
                     Some(t) => S::tag(
                         "ok",
